@@ -172,6 +172,8 @@ class GenModule:
         body = " ∧\n  ".join(parts) if parts else "True"
         self.lines.append("/-- path condition answered while tracing (non-degenerate branch) -/")
         self.lines.append("def %s %s : Prop :=\n  %s\n" % (nm, self.binder, body))
+        self.lines.append("/-- number of distinct data-dependent decisions the code took while it was traced (census: a new branch on the data shows here) -/")
+        self.lines.append("def %sCount : Nat := %d\n" % (nm, len(parts)))
 
     def coo(self, nm, tr, trip, names):
         for k, (_, _, d) in enumerate(trip):
@@ -804,7 +806,11 @@ def gen_solver_glue():
     s.use_cholmod = False
     rec, call = {}, {}
     saved = (SL.splu, SL.eigsh, lapy.Solver)
-    ret_vals, ret_vecs = object(), object()
+    # what the recorder hands back as "ARPACK output": ordinary arrays (so that any post-processing in `eigs` runs), among them a tiny
+    # positive eigenvalue and a tiny negative one (round-off of a zero eigenvalue)
+    ret_vals = np.array([-2.0e-15, 3.0e-9, 0.5])
+    ret_vecs = np.arange(9.0).reshape(3, 3) * 0.37 - 1.0
+    saved_vals, saved_vecs = ret_vals.copy(), ret_vecs.copy()
 
     def fake_eigsh(*args, **kw):
         call["args"] = args
@@ -854,7 +860,8 @@ def gen_solver_glue():
         ("OPinv.matvec is lu.solve", op is not None and isinstance(getattr(getattr(op, "_CustomLinearOperator__matvec_impl", None), "__self__", None), _LU)
          and getattr(op, "_CustomLinearOperator__matvec_impl").__func__ is _LU.solve and getattr(op, "_CustomLinearOperator__matvec_impl").__self__.rec is rec),
         ("OPinv.shape = shape of A", op is not None and tuple(op.shape) == (3, 3)),
-        ("eigs returns eigsh's output unchanged", isinstance(out, tuple) and len(out) == 2 and out[0] is ret_vals and out[1] is ret_vecs),
+        ("eigs returns eigsh's output unchanged", isinstance(out, tuple) and len(out) == 2 and np.array_equal(np.asarray(out[0]), saved_vals)
+         and np.array_equal(np.asarray(out[1]), saved_vecs)),
         ("diffusion: Solver(geometry, lump=True, aniso=aniso)", made.get("geometry") is geo and made.get("lump") is True and made.get("aniso") == 5 and made.get("extra") == []),
         ("diffusion returns the solver output unchanged", isinstance(u, np.ndarray) and [getattr(x, "id", None) for x in u.reshape(-1)] ==
          [tr.var("x%d" % i).id for i in range(3)]),
